@@ -149,6 +149,44 @@ class Gen:
             ns = n - 1
         return Tpl(tid, specs[:ns], specs[ns:]), opts
 
+    def mutate_tpl(self, t, opts):
+        """a re-announcement that differs from (t, opts) in ONE respect only: the enterprise number of a field, one field's
+        element or length, the order of two neighbours, the scope/option split, or the template kind"""
+        rng = self.rng
+        scope, fields = list(t.scope), list(t.fields)
+        allf = scope + fields
+        for _ in range(20):
+            k = rng.randrange(6)
+            if k == 0 and self.proto == "ipfix":          # same element id, same length, other enterprise number
+                cand = [(i, p2) for i, (eid, pen, ln) in enumerate(allf) for p2 in (0, 9, 29305) if p2 != pen and (p2, eid) in self.model and ln != 65535]
+                if cand:
+                    i, p2 = rng.choice(cand); e = allf[i]; allf[i] = (e[0], p2, e[2]); break
+            elif k == 1:                                  # one element replaced by another of the same length
+                i = rng.randrange(len(allf)); e = allf[i]
+                if e[2] != 65535:
+                    pen2, eid2 = rng.choice(self.keys)
+                    if (eid2, pen2) != (e[0], e[1]):
+                        allf[i] = (eid2, pen2, e[2]); break
+            elif k == 2 and len(allf) >= 2:               # two neighbours swapped
+                i = rng.randrange(len(allf) - 1)
+                if allf[i] != allf[i + 1]:
+                    allf[i], allf[i + 1] = allf[i + 1], allf[i]; break
+            elif k == 3:                                  # one length changed
+                i = rng.randrange(len(allf)); e = allf[i]
+                if e[2] not in (65535, 0):
+                    allf[i] = (e[0], e[1], e[2] + 1 if e[2] < 60 else e[2] - 1); break
+            elif k == 4 and opts and len(allf) >= 2:      # the scope / option split moves
+                ns = len(scope)
+                ns2 = ns + 1 if ns < len(allf) - (1 if self.proto == "ipfix" else 0) else ns - 1
+                if 1 <= ns2 <= len(allf) and ns2 != ns:
+                    return Tpl(t.tid, allf[:ns2], allf[ns2:]), True
+            elif k == 5:                                  # plain <-> options template with the same specifiers
+                if opts:
+                    return Tpl(t.tid, [], allf), False
+                return Tpl(t.tid, allf[:1], allf[1:]), True
+        ns = len(scope)
+        return Tpl(t.tid, allf[:ns], allf[ns:]), opts
+
     def rand_value(self, eid, pen, ln):
         """octets of one field on the wire (with its length prefix when variable) and its content"""
         rng = self.rng
